@@ -130,8 +130,9 @@ type Ledger struct {
 	Vals      map[string]Validator
 	Unstakes  []DelayedUnstake
 	Frozen    map[string]Frozen
-	Contracts map[string]bool // EVM accounts that carry code
-	EVMAccts  map[string]bool // every keeper_ account
+	Props     map[string]string // proposal id -> store it sits in (active, passed, failed, finalized, finalize-failed)
+	Contracts map[string]bool   // EVM accounts that carry code
+	EVMAccts  map[string]bool   // every keeper_ account
 	// ClaimsAccrued is delegRwz_total_rewards: the application's cumulative counter of delegation rewards accrued.
 	ClaimsAccrued *big.Int
 	NotValue      map[string]int // number of not-value records per prefix
@@ -261,11 +262,11 @@ func init() {
 		{"d_", notValue("d_")},
 		{"purged_unstake_", hDelayedUnstake},
 		{"purged_", notValue("purged_")},
-		{"propActive", notValue("prop-record")},
-		{"propPassed", notValue("prop-record")},
-		{"propFailed", notValue("prop-record")},
-		{"propFinalized", notValue("prop-record")},
-		{"propFinalizeFailed", notValue("prop-record")},
+		{"propActive", hProposal("active")},
+		{"propPassed", hProposal("passed")},
+		{"propFailed", hProposal("failed")},
+		{"propFinalized", hProposal("finalized")},
+		{"propFinalizeFailed", hProposal("finalize-failed")},
 		{"propVotes_", notValue("propVotes_")},
 		{"etht_", hTracker("ongoing")},
 		{"ethsuccess_", hTracker("success")},
@@ -510,6 +511,19 @@ func hBidOffer(l *Ledger, key, rest string, v []byte) error {
 	return nil
 }
 
+func hProposal(store string) handler {
+	return func(l *Ledger, key, rest string, v []byte) error {
+		l.NotValue["prop-record"]++
+		// a proposal found in two stores is the governance property's business, not a decoding failure:
+		// both are remembered
+		if prev, dup := l.Props[rest]; dup {
+			store = prev + "+" + store
+		}
+		l.Props[rest] = store
+		return nil
+	}
+}
+
 func hEvidence(l *Ledger, key, rest string, v []byte) error {
 	l.NotValue["es__"]++
 	if strings.HasPrefix(rest, "ssvk_") {
@@ -588,8 +602,10 @@ func hTracker(store string) handler {
 			return fmt.Errorf("tracker record is not JSON: %q", trunc(v))
 		}
 		name := strings.ToLower(r.TrackerName)
-		if prev, dup := l.Trackers[name]; dup {
-			return fmt.Errorf("tracker %s is in two stores (%s and %s)", name, prev.Store, store)
+		// a tracker found in two stores is the cross-chain property's business: the record of the final
+		// store (success / failed) wins over the ongoing one
+		if prev, dup := l.Trackers[name]; dup && prev.Store != "ongoing" {
+			return nil
 		}
 		l.Trackers[name] = Tracker{Name: name, Store: store, Type: r.Type, State: r.State, RawTx: r.SignedETHTx, Owner: r.ProcessOwner}
 		return nil
@@ -630,7 +646,7 @@ func hKeeper(l *Ledger, key, rest string, v []byte) error {
 
 // Decode classifies and decodes every record of a dump.
 func Decode(dump map[string][]byte) (*Ledger, error) {
-	l := &Ledger{Trackers: map[string]Tracker{}, Vals: map[string]Validator{}, Frozen: map[string]Frozen{},
+	l := &Ledger{Props: map[string]string{}, Trackers: map[string]Tracker{}, Vals: map[string]Validator{}, Frozen: map[string]Frozen{},
 		Contracts: map[string]bool{}, EVMAccts: map[string]bool{}, NotValue: map[string]int{}, ClaimsAccrued: big.NewInt(0)}
 	keys := make([]string, 0, len(dump))
 	for k := range dump {
